@@ -101,28 +101,60 @@ func FloydWarshall(n int, w map[[2]int]int) [][]int {
 }
 
 // Reach computes the strict transitive closure: r[i][j] iff there is a path of
-// >= 1 edge from i to j.
+// >= 1 edge from i to j (one breadth-first search per vertex over adjacency
+// lists, so that graphs of a thousand vertices stay cheap).
 func Reach(n int, w map[[2]int]int) [][]bool {
+	adj := make([][]int, n)
+	for e := range w {
+		adj[e[0]] = append(adj[e[0]], e[1])
+	}
 	r := make([][]bool, n)
 	for i := range r {
 		r[i] = make([]bool, n)
-	}
-	for e := range w {
-		r[e[0]][e[1]] = true
-	}
-	for k := 0; k < n; k++ {
-		for i := 0; i < n; i++ {
-			if !r[i][k] {
-				continue
-			}
-			for j := 0; j < n; j++ {
-				if r[k][j] {
-					r[i][j] = true
+		queue := append([]int(nil), adj[i]...)
+		for _, t := range queue {
+			r[i][t] = true
+		}
+		for len(queue) > 0 {
+			u := queue[0]
+			queue = queue[1:]
+			for _, t := range adj[u] {
+				if !r[i][t] {
+					r[i][t] = true
+					queue = append(queue, t)
 				}
 			}
 		}
 	}
 	return r
+}
+
+// SingleSource is the reference distance row from src (Bellman-Ford over the
+// edge list; Inf = unreachable; d[src] = 0). Weights are non-negative.
+func SingleSource(n int, w map[[2]int]int, src int) []int {
+	d := make([]int, n)
+	for i := range d {
+		d[i] = Inf
+	}
+	d[src] = 0
+	type edge struct{ u, v, w int }
+	es := make([]edge, 0, len(w))
+	for e, wt := range w {
+		es = append(es, edge{e[0], e[1], wt})
+	}
+	for pass := 0; pass < n; pass++ {
+		changed := false
+		for _, e := range es {
+			if d[e.u] != Inf && d[e.u]+e.w < d[e.v] {
+				d[e.v] = d[e.u] + e.w
+				changed = true
+			}
+		}
+		if !changed {
+			break
+		}
+	}
+	return d
 }
 
 // VID maps a vertex object back to its id.
@@ -150,8 +182,12 @@ func GenGraphCase(g G, kind string, maxN, maxW int) *GraphCase {
 	}
 	big := g.Pct(3)
 	if big {
-		// now and then a graph several times larger than the usual bound
-		gc.N = g.Int(maxN+1, 5*maxN)
+		// now and then a much larger graph: sizes around the powers of two at
+		// which pre-sized buffers, slabs and explicit stacks run over
+		gc.N = Pick(g, []int{maxN + 1, 2 * maxN, 33, 63, 64, 65, 66, 100, 127, 128, 129, 130, 140, 200, 255, 256, 257, 300, 511, 512, 513, 600})
+		if g.Pct(6) {
+			gc.N = Pick(g, []int{1023, 1024, 1025, 1100})
+		}
 	}
 	gc.Hash = g.Bool()
 	// weight palette: small palettes force ties
@@ -205,6 +241,33 @@ func GenGraphCase(g G, kind string, maxN, maxW int) *GraphCase {
 			u, v = perm[u], perm[v]
 		}
 		gc.Edges = append(gc.Edges, [3]int{u, v, weight()})
+	}
+	if big {
+		// a backbone so that (nearly) every vertex is discovered from the
+		// first one and depth-first searches get deep: each vertex hangs off
+		// its predecessor in a random order (chain) or off a random earlier one
+		order := perm
+		if order == nil {
+			ids := make([]int, n)
+			for i := range ids {
+				ids[i] = i
+			}
+			order = rapid.Permutation(ids).Draw(g.T, "backbone")
+		}
+		chainP := Pick(g, []int{0, 50, 90, 100})
+		for k := 1; k < n; k++ {
+			from := order[k-1]
+			if !g.Pct(chainP) {
+				from = order[g.Int(0, k-1)]
+			}
+			gc.Edges = append(gc.Edges, [3]int{from, order[k], weight()})
+		}
+		if kind == "any" && g.Pct(40) {
+			gc.Edges = append(gc.Edges, [3]int{order[n-1], order[0], weight()}) // close the ring
+		}
+		if kind != "rooted" && g.Pct(80) {
+			defer func() { gc.Src = order[0] }()
+		}
 	}
 	if kind == "rooted" {
 		// every vertex except perm[0] gets at least one in-edge from an earlier one
